@@ -4,8 +4,8 @@
    and tied to /repo by the correspondence harness (harness/pC18.py: corr_C18 / holds_C18 by vm_compute).
 
    Domain of the faithfulness theorems: dictionary keys are scalars and set elements are scalars or sets
-   (`hashable_positions`; outside it: D18, D23 - refutation witnesses below), no instances of custom
-   classes (`has_objects g = false`; with them copy() == fails: D24 - and the proofs do not cover PObj, hence
+   (`hashable_positions`; outside it: D18, D28 - refutation witnesses below), no instances of custom
+   classes (`has_objects g = false`; with them copy() == fails: D29 - and the proofs do not cover PObj, hence
    the suffix _partial), Python's own invariants (`python_wf`: keys of one dict pairwise unequal).
    That json.build_tree / BasicBuilder / pydiff build the same tree is proved on an example and checked on
    every generated case by clause ClSameTree of holds_C18, not proved in general. *)
@@ -99,29 +99,29 @@ Theorem C18_refuted_tuple_key :                      (* D18 *)
                /\ to_obj t = RErr "TypeError".
 Proof. exact BuilderProofs.acyclic_refuted_tuple_key. Qed.
 
-Theorem C18_refuted_container_keys :                 (* D23 *)
+Theorem C18_refuted_container_keys :                 (* D28 *)
   acyclic g_set_keys 0 /\ hashable_positions g_set_keys = false
   /\ run_builder BasicB o_default g_set_keys (fuel_bound BasicB o_default g_set_keys 0) 0 = Raised ETypeError.
 Proof. exact BuilderProofs.acyclic_refuted_container_keys. Qed.
 
-Theorem C18_refuted_pyobj_copy :                     (* D24 *)
+Theorem C18_refuted_pyobj_copy :                     (* D29 *)
   acyclic g_obj 0 /\
   exists t, run_builder PyObjB o_default g_obj (fuel_bound PyObjB o_default g_obj 0) 0 = Built t
             /\ copy t = t /\ tree_pyeq (copy t) t = false.
 Proof. exact BuilderProofs.copy_refuted_pyobj. Qed.
 
-Theorem C18_refuted_placeholder_copy :               (* D25 *)
+Theorem C18_refuted_placeholder_copy :               (* D30 *)
   exists t, run_builder BasicB o_ignore g_self (fuel_bound BasicB o_ignore g_self 0) 0 = Built t
             /\ copy t <> t /\ tree_pyeq (copy t) t = false.
 Proof. exact BuilderProofs.copy_refuted_placeholder. Qed.
 
-Theorem C18_refuted_json_bytes :                     (* D26 *)
+Theorem C18_refuted_json_bytes :                     (* D31 *)
   json_run o_default g_bytes 0 = Built (TList [TLeaf KStr (SStr "ab")])
   /\ run_builder BasicB o_default g_bytes (fuel_bound BasicB o_default g_bytes 0) 0
      = Built (TList [TLeaf KStr (SBytes "ab")]).
 Proof. exact BuilderProofs.json_refuted_bytes. Qed.
 
-Theorem C18_refuted_json_cycle : json_run o_default g_self 0 = Raised ERecursion.   (* D27 *)
+Theorem C18_refuted_json_cycle : json_run o_default g_self 0 = Raised ERecursion.   (* D32 *)
 Proof. exact BuilderProofs.json_refuted_cycle. Qed.
 
 Print Assumptions C18_machine_refines.
